@@ -928,4 +928,69 @@ def r81c(F):
     return r
 
 
-RULES = [r13, r13p, r80, r81c, r82, r83, r97, r76, r77, r78, r98]
+# ------------------------------------------------------------------ R76x re-parsing of nested constructs
+def r76x(F):
+    from collections import Counter
+    from .. import grammar
+    r = RuleResult("R76x", "a nested construct is parsed once per position",
+                   "the alternatives the parser tries at one position (expression -> op_expression | non_op_expression -> range_expression "
+                   "| grouped_expression | ...) enter each bracketed construct (grouped expression, list, tuple) at most once: every "
+                   "alternative that starts by parsing the construct and then fails on what follows makes the next alternative parse it "
+                   "again, and the construct contains an expression -- m entries per position mean m^depth parses of the innermost one "
+                   "(R76 shows progress, this rule bounds the work)", floor=3, exhaustive=True)
+    G = grammar.full_grammar(F)
+
+    def first_calls(term, stack=()):
+        k = term[0]
+        c = Counter()
+        if k == "ref":
+            n = term[1]
+            c[n] += 1
+            if n in G and n not in stack and len(stack) < 60:
+                c += first_calls(G[n][0], stack + (n,))
+            return c
+        if k == "seq":
+            for b, t in term[1]:
+                if t[0] in ("eps", "peek"):
+                    continue
+                c += first_calls(t, stack)
+                if not grammar.nullable(t, G, {}):
+                    break
+            return c
+        if k == "alt":
+            for t in term[1]:
+                c += first_calls(t, stack)
+            return c
+        if k in ("opt", "rep", "rep1"):
+            return first_calls(term[1], stack)
+        if k == "sep":
+            return first_calls(term[2], stack)
+        return c
+    need("expression" in G, "grammar has no rule `expression`")
+    c = first_calls(("ref", "expression"))
+    # bracketed constructs: rules whose body is an opening token followed (somewhere) by an expression
+    containers = []
+    for n, (term, ln) in G.items():
+        if term[0] != "seq":
+            continue
+        steps = [t for b, t in term[1] if t[0] not in ("eps", "peek")]
+        if not steps or steps[0][0] != "tok" or steps[0][2] not in ("(", "[", "{"):
+            continue
+        refs = []
+        grammar.walk(term, lambda t: refs.append(t[1]) if t[0] == "ref" else None)
+        if any(x in ("expression", "field_list", "statement") for x in refs):
+            containers.append(n)
+    need(len(containers) >= 3, "bracketed constructs not found in the grammar (%s)" % containers)
+    for n in sorted(containers):
+        m = c.get(n, 0)
+        if m == 0:
+            continue
+        r.inst("entries:%s" % n, "src/parse/mod.rs:%s" % G[n][1], m <= 1,
+               "entered once per position" if m <= 1 else
+               "`%s` can be entered %d times at one position of one `expression` call (op_expression then non_op_expression, "
+               "range_expression then the construct itself): parse time grows like %d^depth -- ten nested parentheses take a minute"
+               % (n, m, m))
+    return r
+
+
+RULES = [r13, r13p, r80, r81c, r82, r83, r97, r76, r76x, r77, r78, r98]
